@@ -24,8 +24,12 @@ RULE = ("align cases: start/end molecules of 1..9 atoms (either one larger, equa
         "restraints None / [] / random in-range pairs with duplicates / rarely negative or out-of-range indices, "
         "deformation types None or explicit, ignore_hydrogens on/off, auto-guess on/off, rarely a disconnected mobile "
         "molecule; guessers: every (n, parts) and (n1, n2) size pair of the tier's square, random multi-residue pairs "
-        "with equal / similar / different residue names and different residue counts; manager: systems of 2-3 species "
-        "(one possibly without end molecule) with option dictionaries valid / unknown names / malformed values. "
+        "with equal / similar / different residue names and different residue counts; histories: 2-3 consecutive "
+        "align_molecules calls sharing one restraint list object (same or fresh Alignment, 60 % start smaller), the "
+        "caller's list compared after every call; manager: systems of 2-3 species "
+        "(one possibly without end molecule) with option dictionaries valid / unknown names / malformed values, and "
+        "parse_restrictions=False with the parsed dictionary permuted / restricted to a subset / reused for a second call "
+        "(real Alignment.align_molecules run under a logger). "
         "A case is non-trivial when distinct and it has at least one restraint, a guess, an error or a non-default option.")
 
 ERRMAP = [(KeyError, "EKey"), (IndexError, "EIndex"), (OSError, "EIO"), (ValueError, "EValue"), (TypeError, "EType")]
@@ -186,12 +190,22 @@ def gen_align_case(rs):
 
 
 # ------------------------------------------------------------------ implementation drivers
-def run_align(case):
-    """Alignment(start, end).align_molecules(...) with the optimiser entry point wrapped.
-    Returns a dict: err | nocall | call{fixed_is_start, fixed_tags, mobile_tags, restr, deform} + raw arrays."""
+def _as_pairs(lst):
+    """the caller's list as plain data (whatever the implementation left in it)"""
+    out = []
+    for p in lst:
+        try:
+            out.append([int(x) for x in p])
+        except Exception:   # noqa
+            out.append([repr(p)])
+    return out
+
+
+def _observe(ali, restr_obj, deform, ign, autog):
+    """one ali.align_molecules(...) call with the optimiser entry point wrapped.
+    Returns a dict: err | nocall | call{fixed_is_start, fixed_tags, mobile_tags, restr, deform} + raw arrays,
+    and list_after (the caller's restraint list object as it is after the call)."""
     import gaddlemaps._alignment as A
-    start, end = build(case["start"]), build(case["end"])
-    ali = A.Alignment(start, end)
     rec = []
 
     def recorder(*args, **kwargs):
@@ -199,43 +213,119 @@ def run_align(case):
                     "start_pos": np.array(ali.start.atoms_positions), "end_pos": np.array(ali.end.atoms_positions)})
         return args[1]
 
-    restr = [tuple(p) for p in case["restr"]] if case["restr"] is not None else None
-    deform = tuple(case["deform"]) if case["deform"] is not None else None
     saved = A.minimize_molecules
     A.minimize_molecules = recorder
+    out = None
     try:
         try:
-            ali.align_molecules(restr, deform, case["ign"], case["autog"])
+            ali.align_molecules(restr_obj, deform, ign, autog)
         except Exception as ex:    # noqa
-            return {"err": err_of(ex), "exc": repr(ex)[:200], "calls": len(rec)}
+            out = {"err": err_of(ex), "exc": repr(ex)[:200], "calls": len(rec)}
     finally:
         A.minimize_molecules = saved
+    after = _as_pairs(restr_obj) if restr_obj is not None else None
+    if out is not None:
+        out["list_after"] = after
+        return out
     if not rec:
-        return {"nocall": True}
+        return {"nocall": True, "list_after": after}
     if len(rec) > 1:
-        return {"err": "ESystem", "exc": "optimiser called %d times" % len(rec), "calls": len(rec)}
+        return {"err": "ESystem", "exc": "optimiser called %d times" % len(rec), "calls": len(rec), "list_after": after}
     r = rec[0]
     a = r["args"]
     if len(a) != 9 or r["kwargs"]:
-        return {"err": "ESystem", "exc": "unexpected optimiser signature", "calls": 1}
+        return {"err": "ESystem", "exc": "unexpected optimiser signature", "calls": 1, "list_after": after}
     fixed, mobile = np.array(a[0], dtype=float).reshape(-1, 3), np.array(a[1], dtype=float).reshape(-1, 3)
 
     def tags(arr):
-        out = []
+        out_ = []
         for row in arr:
             hit = [k for k, p in enumerate(r["start_pos"]) if (p == row).all()] + \
                   [100 + k for k, p in enumerate(r["end_pos"]) if (p == row).all()]
-            out.append(hit[0] if len(hit) == 1 else 999)
-        return out
+            out_.append(hit[0] if len(hit) == 1 else 999)
+        return out_
     ft, mt = tags(fixed), tags(mobile)
     src = set(t // 100 for t in ft if t != 999)
     if ft:
         fixed_is_start = src == {0}
     else:
         fixed_is_start = not (len(mt) > 0 and all(t < 100 for t in mt))
+    try:
+        got = [(int(p[0]), int(p[1])) for p in a[5]]
+    except Exception:   # noqa
+        return {"err": "ESystem", "exc": "restraints received are not pairs of ints", "calls": 1, "list_after": after}
     return {"call": {"fixed_is_start": bool(fixed_is_start), "fixed_tags": ft, "mobile_tags": mt,
-                     "restr": [(int(p[0]), int(p[1])) for p in a[5]], "deform": [int(x) for x in a[8]]},
-            "fixed": fixed, "mobile": mobile, "start_pos": r["start_pos"], "end_pos": r["end_pos"]}
+                     "restr": got, "deform": [int(x) for x in a[8]]},
+            "fixed": fixed, "mobile": mobile, "start_pos": r["start_pos"], "end_pos": r["end_pos"], "list_after": after}
+
+
+def run_align(case):
+    """Alignment(start, end).align_molecules(restr, deform, ign, autog), one call"""
+    import gaddlemaps._alignment as A
+    start, end = build(case["start"]), build(case["end"])
+    ali = A.Alignment(start, end)
+    restr = [tuple(p) for p in case["restr"]] if case["restr"] is not None else None
+    deform = tuple(case["deform"]) if case["deform"] is not None else None
+    return _observe(ali, restr, deform, case["ign"], case["autog"])
+
+
+def run_history(case):
+    """2-3 consecutive align_molecules calls that share ONE restraint list object (same Alignment or a fresh one
+    on the same molecules).  Returns one observation per call."""
+    import gaddlemaps._alignment as A
+    start, end = build(case["start"]), build(case["end"])
+    ali = A.Alignment(start, end)
+    lst = [tuple(p) for p in case["restr"]]          # the caller's list: built once, passed to every call
+    out = []
+    for c in case["calls"]:
+        if c.get("fresh"):
+            ali = A.Alignment(start, end)
+        deform = tuple(c["deform"]) if c["deform"] is not None else None
+        out.append(_observe(ali, lst, deform, c["ign"], c["autog"]))
+    return out
+
+
+def gen_history_case(rs):
+    for _ in range(100):
+        case = gen_align_case(rs)
+        ns, ne = len(case["start"]["atoms"]), len(case["end"]["atoms"])
+        if ne == 1:
+            continue
+        if rs.uniform() < 0.6 and not ns < ne:
+            continue
+        break
+    restr = None
+    while not restr:
+        restr = gen_restr(rs, ns, ne, False)
+    calls = []
+    ign = bool(rs.randint(2))
+    for k in range(int(rs.randint(2, 4))):
+        deform = [None, (0, 1), (0, 1, 2), (0,), (2,)][int(rs.randint(0, 5))]
+        if rs.uniform() < 0.25:
+            ign = not ign
+        calls.append({"deform": list(deform) if deform is not None else None, "ign": ign, "autog": True,
+                      "fresh": bool(k > 0 and rs.uniform() < 0.4)})
+    return {"kind": "history", "start": case["start"], "end": case["end"], "restr": [list(p) for p in restr], "calls": calls}
+
+
+def history_call_case(case, k):
+    """the k-th call of a history as a single-call case whose restraint list is the list the caller BUILT"""
+    c = case["calls"][k]
+    return {"kind": "align", "start": case["start"], "end": case["end"], "restr": case["restr"],
+            "deform": c["deform"], "ign": c["ign"], "autog": c["autog"]}
+
+
+def oracle_history(case, obs=None):
+    """designation must hold on EVERY call made with the list, and the caller's list must be unchanged after each"""
+    if obs is None:
+        obs = run_history(case)
+    bad, changed = [], []
+    for k, o in enumerate(obs):
+        for b in oracle_align(history_call_case(case, k), o):
+            bad.append("call #%d: %s" % (k + 1, b))
+        if not changed and o.get("list_after") != [list(p) for p in case["restr"]]:
+            changed.append("call #%d: the caller's restraint list was changed: %s -> %s" % (k + 1, case["restr"], o.get("list_after")))
+    return bad + changed
 
 
 def run_remove(spec, restr):
@@ -459,6 +549,120 @@ def run_manager(man, opt):
     return calls, err
 
 
+def gen_options_np(rs, sysspec, man):
+    """parse_restrictions once (real code), then the parsed dictionary re-ordered / restricted to a subset of the
+    species and handed to align_molecules(..., parse_restrictions=False) once or twice.  JSON-able."""
+    comp = [sp for sp in sysspec["species"] if sp["end"] is not None]
+    user = {}
+    for sp in comp:
+        if rs.uniform() < 0.7:
+            ns, ne = len(sp["start"]["atoms"]), len(sp["end"]["atoms"])
+            user[sp["name"]] = [(int(rs.randint(0, ns)), int(rs.randint(0, ne))) for _ in range(int(rs.randint(1, 5)))]
+    parsed = man.parse_restrictions(user if (user or rs.randint(2)) else None)
+    names = list(parsed)
+    rs.shuffle(names)
+    if len(names) > 1 and rs.uniform() < 0.4:
+        names = names[:int(rs.randint(1, len(names)))]
+    pairs = [[nm, None if parsed[nm] is None else [list(map(int, p)) for p in parsed[nm]]] for nm in names]
+    deform = ign = None
+    if rs.uniform() < 0.85:
+        deform = {}
+        for sp in comp:
+            if rs.uniform() < 0.6:
+                deform[sp["name"]] = [[0], [0, 1], [0, 1, 2], [2, 1], [1], None][int(rs.randint(0, 6))]
+    if rs.uniform() < 0.85:
+        ign = {}
+        for sp in comp:
+            if rs.uniform() < 0.6:
+                ign[sp["name"]] = bool(rs.randint(2))
+    bad = None
+    if rs.uniform() < 0.06:
+        incomplete = [sp["name"] for sp in sysspec["species"] if sp["end"] is None]
+        pairs.insert(int(rs.randint(0, len(pairs) + 1)), [incomplete[0] if incomplete else "ZZZ", None])
+        bad = "np_unknown"
+    return {"restr_np": pairs, "deform": deform, "ign": ign, "bad": bad, "ncalls": int(rs.randint(1, 3))}
+
+
+def run_manager_np(man, opt):
+    """man.align_molecules(parsed, deform, ign, parse_restrictions=False), `ncalls` times with the SAME dictionary
+    and list objects.  Alignment.align_molecules is wrapped by a logger that snapshots its arguments and then runs
+    the real method (with the optimiser entry point replaced by a no-op).  One (calls, err) per manager call."""
+    import contextlib
+    import copy
+    import io
+    import gaddlemaps._alignment as A
+    from gaddlemaps import Alignment
+    owner = {id(ali): name for name, ali in man.molecule_correspondence.items()}
+    restr = {}
+    for nm, v in opt["restr_np"]:
+        restr[nm] = None if v is None else [tuple(p) for p in v]
+    _r, deform, ign = py_options({"restr": None, "deform": opt["deform"], "ign": opt["ign"]})
+    original = Alignment.align_molecules
+    saved_min = A.minimize_molecules
+    calls = []
+
+    def logger(self, *args, **kwargs):
+        calls.append({"species": owner.get(id(self), "?"), "args": copy.deepcopy(args), "kwargs": copy.deepcopy(kwargs)})
+        return original(self, *args, **kwargs)
+    out = []
+    Alignment.align_molecules = logger
+    A.minimize_molecules = lambda *a, **k: a[1]
+    try:
+        for _ in range(opt.get("ncalls", 1)):
+            calls = []
+            err = None
+            try:
+                with contextlib.redirect_stdout(io.StringIO()):
+                    man.align_molecules(restr, deform, ign, parse_restrictions=False)
+            except Exception as ex:  # noqa
+                err = err_of(ex)
+            out.append((calls, err))
+    finally:
+        Alignment.align_molecules = original
+        A.minimize_molecules = saved_min
+    return out
+
+
+def oracle_manager_np(sysspec, opt, man=None, obs=None):
+    """options given for a species reach the alignment of exactly that species - on every call made with the dictionary"""
+    if opt.get("bad"):
+        return []
+    if obs is None:
+        if man is None:
+            man = build_manager(sysspec)
+        obs = run_manager_np(man, opt)
+    given = {nm: (None if v is None else [tuple(p) for p in v]) for nm, v in opt["restr_np"]}
+    _r, deform, ign = py_options({"restr": None, "deform": opt["deform"], "ign": opt["ign"]})
+    bad = []
+    for k, (calls, err) in enumerate(obs):
+        tag = "manager call #%d: " % (k + 1)
+        if err is not None:
+            bad.append(tag + "valid options rejected with %s" % err)
+            break
+        if sorted(c["species"] for c in calls) != sorted(given):
+            bad.append(tag + "alignments called for %s, restraints were given for %s" % ([c["species"] for c in calls], list(given)))
+            break
+        for c in calls:
+            nm = c["species"]
+            a = list(c["args"])
+            if c["kwargs"] or len(a) != 3:
+                bad.append(tag + "unexpected call signature")
+                continue
+            want_d = (deform or {}).get(nm) or None
+            want_i = (ign or {}).get(nm, True)
+            got_r = [tuple(p) for p in a[0]] if a[0] is not None else None
+            got_d = tuple(a[1]) if a[1] is not None else None
+            if got_r != given[nm]:
+                bad.append(tag + "species %s aligned with restraints %s, given %s" % (nm, got_r, given[nm]))
+            if got_d != want_d:
+                bad.append(tag + "species %s aligned with deformation types %s, given %s" % (nm, got_d, want_d))
+            if a[2] is not want_i:
+                bad.append(tag + "species %s aligned with ignore_hydrogens %s, given %s" % (nm, a[2], want_i))
+        if bad:
+            break
+    return bad
+
+
 # ------------------------------------------------------------------ Coq terms
 def t_nat_list(l):
     return coq_list([str(int(x)) for x in l])
@@ -545,6 +749,22 @@ def t_trace(calls):
                                          t_opt(restr, lambda r: t_zz_list([(p[0], p[1]) for p in r])),
                                          t_opt(deform, t_z_list), t_bool(ign)))
     return coq_list(out)
+
+
+def t_history(case, obs):
+    entries = []
+    for c, o in zip(case["calls"], obs):
+        after = o.get("list_after") or []
+        if any(len(p) != 2 or not all(isinstance(x, int) for x in p) for p in after):
+            after = [[-99, -99]]      # not even a list of int pairs any more: cannot equal the model's list
+        entries.append("(%s, %s, %s, %s, %s)" % (t_opt(c["deform"], t_z_list), t_bool(c["ign"]), t_bool(c["autog"]),
+                                               t_obs_align(o), t_zz_list(after)))
+    return "chk_history %s %s %s %s" % (t_mol(case["start"], 0), t_mol(case["end"], 100), t_zz_list(case["restr"]),
+                                       coq_list(entries))
+
+
+def t_np_dict(pairs):
+    return "(Some %s)" % coq_list(["(%s, %s)" % (lib.coq_bytes(nm), t_opt(v, t_zz_list)) for nm, v in pairs])
 
 
 # ------------------------------------------------------------------ S oracles (property text, no model)
@@ -751,6 +971,79 @@ CORPUS_ALIGN = [
 ]
 
 
+def _data(name):
+    import os
+    import gaddlemaps
+    return os.path.join(os.path.dirname(gaddlemaps.__file__), "data", name)
+
+
+def corpus_demo1():
+    """seeded/C10-1 witness: CUR CG (8 beads, start) aligned on CUR AA (41 atoms, end) twice with ONE restraint list
+    (rigid pre-alignment, then the full one), hydrogens kept / filtered.  Packaged data."""
+    import gaddlemaps._alignment as A
+    from gaddlemaps.components import System
+    bad = []
+    for ign in (False, True):
+        end = System(_data("CUR_AA.gro"), _data("CUR_AA.itp"))[0]
+        start = System(_data("CUR_map.gro"), _data("CUR_CG.itp"))[0]
+        ali = A.Alignment(start=start, end=end)
+        heavy = [k for k, at in enumerate(ali.end) if not oracle_is_h(at.name)]
+        hydro = [k for k, at in enumerate(ali.end) if oracle_is_h(at.name)]
+        user = [(0, heavy[3]), (5, heavy[-1]), (2, hydro[0]), (7, heavy[10]), (1, heavy[1])]
+        expected = [p for p in user if not (ign and p[1] in hydro)]
+        lst = list(user)
+        for n, deform in enumerate([(0, 1), (0, 1, 2)]):
+            o = _observe(ali, lst, deform, ign, True)
+            if "call" not in o:
+                bad.append("ign=%s call #%d: no optimiser call (%s)" % (ign, n + 1, o.get("exc", "")))
+                continue
+            got = []
+            for i2, j2 in o["call"]["restr"]:
+                if not (0 <= i2 < len(o["fixed"]) and 0 <= j2 < len(o["mobile"])):
+                    got.append(("out of range", i2, j2))
+                    continue
+                j = [k for k, p in enumerate(o["end_pos"]) if (p == o["fixed"][i2]).all()]
+                i = [k for k, p in enumerate(o["start_pos"]) if (p == o["mobile"][j2]).all()]
+                got.append((i[0] if len(i) == 1 else None, j[0] if len(j) == 1 else None))
+            if got != expected:
+                bad.append("ign=%s call #%d: the optimiser restrains (start, end) atoms %s, the user asked for %s"
+                           % (ign, n + 1, got, expected))
+            if lst != user:
+                bad.append("ign=%s call #%d: the caller's restraint list was changed: %s" % (ign, n + 1, lst))
+    return bad
+
+
+def corpus_demo2():
+    """seeded/C10-2 witness: BMIM/BF4 manager from the packaged data, restrictions parsed once, dictionary BF4-first,
+    non-default options for BMIM only, align_molecules(parse_restrictions=False)."""
+    from gaddlemaps import Manager
+    from gaddlemaps.components import System
+    system = System(_data("system_bmimbf4_cg.gro"), _data("BMIM_CG.itp"), _data("BF4_CG.itp"))
+    man = Manager(system)
+    man.add_end_molecule(System(_data("BMIM_AA.gro"), _data("BMIM_AA.itp"))[0])
+    man.add_end_molecule(System(_data("BF4_AA.gro"), _data("BF4_AA.itp"))[0])
+    parsed = man.parse_restrictions({"BF4": [(0, 0)], "BMIM": [(0, 0), (2, 5)]})
+    opt = {"restr_np": [["BF4", [list(p) for p in parsed["BF4"]]], ["BMIM", [list(p) for p in parsed["BMIM"]]]],
+           "deform": {"BMIM": [0, 1]}, "ign": {"BMIM": False}, "bad": None, "ncalls": 2}
+    sysspec = {"species": [{"name": "BMIM", "end": True}, {"name": "BF4", "end": True}]}
+    return oracle_manager_np(sysspec, opt, man)
+
+
+CORPUS_HISTORY = [
+    # one list, start smaller (roles swap): rigid pre-alignment then the full one, same Alignment
+    {"kind": "history", "start": _spec(["B0", "H1", "B2"]), "end": _spec(["H0", "C1", "1H", "C3", "O4", "HA5"], d=0.37),
+     "restr": [[0, 1], [1, 3], [2, 5], [0, 0]],
+     "calls": [{"deform": [0, 1], "ign": False, "autog": True, "fresh": False},
+               {"deform": [0, 1, 2], "ign": False, "autog": True, "fresh": False},
+               {"deform": None, "ign": True, "autog": True, "fresh": True}]},
+    # start larger (no swap)
+    {"kind": "history", "start": _spec(["H0", "C1", "H2", "C3", "O4"]), "end": _spec(["B0", "B1", "B2"], d=0.37),
+     "restr": [[1, 0], [3, 2], [0, 1]],
+     "calls": [{"deform": [0, 1], "ign": True, "autog": True, "fresh": False},
+               {"deform": None, "ign": True, "autog": True, "fresh": False}]},
+]
+
+
 def corpus(ctx):
     S = ctx.cov["S"]
     S["corpus"] = 0
@@ -765,6 +1058,16 @@ def corpus(ctx):
         if bad:
             ctx.violation("guess_residue_restrains: " + "; ".join(bad), {"kind": "residue", "n1": n1, "n2": n2, "o1": 5, "o2": 11},
                           key="residue")
+    for case in CORPUS_HISTORY:
+        bad = oracle_history(case)
+        S["corpus"] += 1
+        if bad:
+            ctx.violation("align history: " + "; ".join(bad), case, key="history")
+    for name, fn in (("demo1", corpus_demo1), ("demo2", corpus_demo2)):
+        bad = fn()
+        S["corpus"] += 1
+        if bad:
+            ctx.violation("%s (packaged data): %s" % (name, "; ".join(bad)), {"kind": name}, key=name)
 
 
 # ------------------------------------------------------------------ K
@@ -809,6 +1112,21 @@ def correspondence(ctx):
         if bad:
             ctx.violation("align: " + "; ".join(bad), case, key="align")
     ctx.sample({k: align_cases[len(CORPUS_ALIGN)][k] for k in ("restr", "deform", "ign", "autog")})
+
+    # ---- histories: several alignments with ONE restraint list object
+    hist_cases = [dict(c) for c in CORPUS_HISTORY] + [gen_history_case(rs) for _ in range(ctx.n(250, 3000))]
+    for case in hist_cases:
+        purge_tmp()
+        obs = run_history(case)
+        add(t_history(case, obs), case)
+        ns, ne = len(case["start"]["atoms"]), len(case["end"]["atoms"])
+        _hist(hist, "history/%s/%d calls%s" % ("swap" if ns < ne else "noswap", len(case["calls"]),
+                                               "/fresh" if any(c["fresh"] for c in case["calls"]) else ""))
+        ctx.count(("history", json.dumps(case, sort_keys=True)), True)
+        bad = oracle_history(case, obs)
+        if bad:
+            ctx.violation("align history: " + "; ".join(bad), case, key="history")
+    ctx.sample({"kind": "history", "restr": hist_cases[-1]["restr"], "calls": hist_cases[-1]["calls"]})
 
     # ---- remove_hydrogens directly, element
     for _ in range(ctx.n(150, 2000)):
@@ -895,7 +1213,31 @@ def correspondence(ctx):
             bad = oracle_manager(sysspec, opt, man)
             if bad:
                 ctx.violation("manager routing: " + "; ".join(bad), m, key="manager")
-    ctx.sample({"kind": "manager", "options": meta[-1]["options"]})
+        # parse_restrictions=False: the parsed dictionary in the caller's key order, possibly used twice
+        for _k in range(4):
+            opt = gen_options_np(rs, sysspec, man)
+            obs = run_manager_np(man, opt)
+            m = {"kind": "manager_np", "system": sysspec, "options": opt}
+            for k2, (calls, err) in enumerate(obs):
+                tr = t_trace(calls)
+                if tr is None:
+                    untraceable += 1
+                    tr = "[]"
+                    err = err or "ESystem"
+                add("chk_manager_np %s %s %s %s %s %s" % (mc, t_np_dict(opt["restr_np"]), t_dict(opt["deform"], t_dvalue),
+                                                         t_dict(opt["ign"], t_ivalue), tr,
+                                                         "None" if err is None else "(Some %s)" % err), dict(m, call=k2 + 1))
+                _hist(hist, "manager_np/%s/call%d/%s" % (opt["bad"] or "valid", k2 + 1, err or "ok"))
+            sysorder = [sp["name"] for sp in sysspec["species"] if sp["end"] is not None]
+            given = [nm for nm, _v in opt["restr_np"]]
+            _hist(hist, "manager_np/order=" + ("system" if given == sysorder else
+                                               ("subset" if given == [x for x in sysorder if x in given] else "permuted")))
+            ctx.count(("manager_np", json.dumps(m, sort_keys=True, default=str)), True)
+            bad = oracle_manager_np(sysspec, opt, man, obs)
+            if bad:
+                ctx.violation("manager routing (parse_restrictions=False): " + "; ".join(bad), m, key="manager_np")
+    ctx.sample({"kind": "manager", "options": [x for x in meta if x.get("kind") == "manager"][-1]["options"]})
+    ctx.sample({"kind": "manager_np", "options": meta[-1]["options"]})
 
     codes, log = lib.run_coq_cases(ctx.cid, "K", HEADER, cases, shard=150)
     K = ctx.cov["K"]
@@ -965,6 +1307,14 @@ def oracle_on(d):
         return oracle_protein(d["m1"], d["m2"])
     if k == "manager":
         return oracle_manager(d["system"], d["options"])
+    if k == "manager_np":
+        return oracle_manager_np(d["system"], d["options"])
+    if k == "history":
+        return oracle_history(d)
+    if k == "demo1":
+        return corpus_demo1()
+    if k == "demo2":
+        return corpus_demo2()
     if k == "remove":
         # dropped iff the fixed-side atom is a filtered hydrogen, others kept in order, renumbered
         o = run_remove(d["mol"], d["restr"])
@@ -1002,6 +1352,16 @@ def oracle(ctx, scale):
             fails += 1
             ctx.violation("align: " + "; ".join(bad), case, key="align")
     S["align_x%d" % scale] = n
+    nh = ctx.n(150, 2000) * scale
+    for _ in range(nh):
+        purge_tmp()
+        case = gen_history_case(rs)
+        bad = oracle_history(case)
+        ctx.count(("shist", json.dumps(case, sort_keys=True)), True)
+        if bad:
+            fails += 1
+            ctx.violation("align history: " + "; ".join(bad), case, key="history")
+    S["align_history_x%d" % scale] = nh
     N = ctx.n(12, 40)
     cnt = 0
     for nn in range(1, N + 1):
@@ -1046,6 +1406,15 @@ def oracle(ctx, scale):
             if bad:
                 fails += 1
                 ctx.violation("manager routing: " + "; ".join(bad), {"kind": "manager", "system": sysspec, "options": opt}, key="manager")
+        for _k in range(3):
+            opt = gen_options_np(rs, sysspec, man)
+            bad = oracle_manager_np(sysspec, opt, man)
+            cntm += 1
+            ctx.count(("sman_np", json.dumps([sysspec, opt], sort_keys=True, default=str)), True)
+            if bad:
+                fails += 1
+                ctx.violation("manager routing (parse_restrictions=False): " + "; ".join(bad),
+                              {"kind": "manager_np", "system": sysspec, "options": opt}, key="manager_np")
     S["manager_x%d" % scale] = cntm
     S["failures"] = S.get("failures", 0) + fails
 
